@@ -16,14 +16,14 @@ ADDED = {
  "C08": "Also: template id ranges 256.., 1000.., 65533.. and the reserved range below 256. One udp and one tcp session of 70000 (thorough 140000) calls in lock step with the peer.",
  "C09": "Also: single-record sets built through MakeDataSet, and a JSON-output-mode phase (refused sets write nothing; accepted records are JSON documents; byte counts add up). Zero-field records for ids never sent, and single records whose fields are each encodable but add up beyond a message.",
  "C10": "Also: the unconfigured TTL (default 1800 s). Two scenarios off the harness clock: the production clock with 30 ms passing inside the call that arms the timer, and the expiry callback racing a refresh on two goroutines for 40000 (thorough 1.5 M) rounds.",
- "C11": "Also: long-lived real plain and TLS connections whose stream pauses 6 s (thorough up to 65 s) inside a message. Thorough pauses now go to 95 and 125 s.",
- "C12": "Also: Stop after a Start that could not bring the server up, and hundreds of clients connected at once in waves followed by one ordinary client.",
+ "C11": "Also: long-lived real plain and TLS connections whose stream pauses 6 s (thorough up to 65 s) inside a message. Thorough pauses now go to 95 and 125 s. Data sets that end with padding inside the streams.",
+ "C12": "Also: Stop after a Start that could not bring the server up, and hundreds of clients connected at once in waves followed by one ordinary client. The harness's TLS clients dial with a bound: a client that cannot get a session while silent clients hold connections is a failure.",
  "C13": "Also: programs at log verbosity 5, and a burst of thousands of flows ingested and expired by concurrent goroutines (each exported exactly once).",
- "C14": "Also: JSON-mode exporters under refresh activity, the idle-close scenario over TLS, the real refresh ticker over DTLS, and a refresh round that cannot rebuild a registered template (next SendSet and Close must return).",
+ "C14": "Also: JSON-mode exporters under refresh activity, the idle-close scenario over TLS, the real refresh ticker over DTLS, and a refresh round that cannot rebuild a registered template (next SendSet and Close must return). Template sets of several records that repeat templates already sent, and udp exporters configured with a connection-check interval.",
  "C15": "Also: every registry element of a supported type once per position, and one unknown element announced with every length 1..64 and variable-length in one lenient collector.",
- "C16": "Also: element lists holding an element whose declared type has no encoder.",
- "C17": "Also: templates of 60-140 fields and unknown elements under enterprise numbers above 2^16 that alias registered ones.",
- "C18": "Beyond the matrix: the collector addressed by host name, security settings with the network names tcp4/tcp6/udp4/udp6 (nothing may travel in clear), and a generated phase of server identities (intermediates presented / withheld / not a CA / expired, SAN lists with wildcards and IP literals, validity windows) judged by a predicate written from the statement.",
+ "C16": "Also: element lists holding an element whose declared type has no encoder. Records around an element without encoder judged field by field, and add calls that name another template id than the set's.",
+ "C17": "Also: templates of 60-140 fields and unknown elements under enterprise numbers above 2^16 that alias registered ones. Data sets that end with padding.",
+ "C18": "Beyond the matrix: the collector addressed by host name, security settings with the network names tcp4/tcp6/udp4/udp6 (nothing may travel in clear), and a generated phase of server identities (intermediates presented / withheld / not a CA / expired, SAN lists with wildcards and IP literals, validity windows) judged by a predicate written from the statement. Trusted-then-untrusting exporter pairs with and without client key pairs, and server certificates 20 s from either end of their validity.",
  "C19": "Also: KafkaLogSuccesses on, a slow broker side, messages with more records than the queues hold, and a watchdog for a producer that stops making progress.",
  "C20": "Also: records that repeat an element, and messages whose rendering is far larger than any wire message.",
 }
